@@ -301,7 +301,7 @@ def _wire(prop, tier, seed, core, targets, rule):
             out = os.path.join(work, "shard-%02d.json" % n)
             jobs.append(("%s#%d" % (target, k), [core.binpath("wire"), "--target", target, "--seed", str(_seed(seed, n)), "--batches", str(batches * mult),
                          "--time-limit", str(secs * (1 if tier == "quick" else 8)), "--huge", "1" if k == 0 else "0", "--out", out], out))
-    res = core.run_shards(prop, jobs, 20 * 8 * 3 + 120)
+    res = core.run_shards(prop, jobs, max(t[3] for t in targets) * (1 if tier == "quick" else 8) * 3 + 90)
     m = core.merge(prop, tier, seed, res, core.known_for(prop), engine="wire")
     m["rule"] = rule
     return m
